@@ -67,11 +67,14 @@ class C19(Base):
     TRUSTED = ["inotify IN_OPEN events as the observation of file opens (Linux)"]
 
     # --- generation ----------------------------------------------------------------------------------
-    def scenario(self, rng, nsteps=None):
+    def scenario(self, rng, nsteps=None, big=False):
         for _ in range(50):
             scheme = rng.choice(SCHEMES)
             locales = rng.sample(LOCALES, rng.choice([1, 2, 2, 3]))
             rids = rng.sample(RES_IDS, rng.choice([1, 2, 3, 3, 4]))
+            if big:
+                # MANY resource files per bundle (9-24 distinct ids requested at once)
+                rids = rids[:2] + ["r%d.ftl" % i for i in range(rng.choice([9, 10, 16, 17, 24]))]
             paths = sorted({path_of(scheme, l, r) for l in locales for r in rids})
             if all(valid_rel(p) for p in paths) and prefix_free(paths):
                 break
@@ -105,6 +108,8 @@ class C19(Base):
 
         def idlist():
             k = rng.choice([0, 1, 1, 2, 2, 3, 4])
+            if big and rng.random() < 0.6:
+                return rng.sample(rids, rng.randint(9, len(rids)))
             return [rng.choice(rids) for _ in range(k)]
 
         for p in paths:
@@ -133,6 +138,8 @@ class C19(Base):
         n = 5000 if tier == "quick" else 60000
         for _ in range(n):
             yield self.scenario(rng)
+        for _ in range(60 if tier == "quick" else 3000):
+            yield self.scenario(rng, big=True)
         if tier == "thorough":
             # exhaustive small family: one path, every sequence of <=4 steps from 9 step shapes, then a request
             sch, loc, rid = "{locale}/{res_id}", "pl", "m"
